@@ -29,6 +29,10 @@ class PoolWorld(object):
       # another pool of the same process was configured earlier; this one leaves the queue length at its default (unbounded)
       WatermarkPoolSink.Builder(min_watermark=0, max_watermark=1, max_queue_len=1)
       builder = WatermarkPoolSink.Builder(min_watermark=self.mn, max_watermark=self.mx)
+    elif params.get('via_clone'):
+      # the public way to derive one configuration from another: a provider with other settings, cloned with every setting overridden
+      builder = WatermarkPoolSink.Builder(min_watermark=1, max_watermark=7, max_queue_len=5).Clone(
+        min_watermark=self.mn, max_watermark=self.mx, max_queue_len=self.ql)
     else:
       builder = WatermarkPoolSink.Builder(min_watermark=self.mn, max_watermark=self.mx, max_queue_len=self.ql)
     builder.next_provider = stubs.StubProvider(self.reg)
